@@ -866,6 +866,11 @@ impl DiskIO {
                     #[cfg(feature = "verif")]
                     let verif_view = (buffer.as_ptr(), buffer.len());
                     buffers.mark_in_flight(i);
+                    #[cfg(feature = "verif")]
+                    if crate::verif::flag("uring_sq_full") {
+                        buffers.mark_unqueued(i);
+                        break;
+                    }
                     if unsafe { sq.push(&write_e) }.is_err() {
                         buffers.mark_unqueued(i);
                         break;
@@ -890,6 +895,11 @@ impl DiskIO {
                     .as_mut()
                     .expect("io_uring checked above")
                     .submit_and_wait(queued - completed_count);
+                #[cfg(feature = "verif")]
+                let wait_result = match crate::verif::uring_enter() {
+                    Some(error) => Err(error),
+                    None => wait_result,
+                };
 
                 if let Err(error) = wait_result {
                     if error.kind() == io::ErrorKind::Interrupted {
@@ -1018,6 +1028,17 @@ fn metadata_block(metadata: &[u8]) -> Result<Vec<u8>> {
     Ok(block)
 }
 
+/// Stand-in for a completion entry whose result the verification handler may have replaced.
+#[cfg(all(target_os = "linux", feature = "verif"))]
+struct VerifCqe(i32);
+
+#[cfg(all(target_os = "linux", feature = "verif"))]
+impl VerifCqe {
+    fn result(&self) -> i32 {
+        self.0
+    }
+}
+
 #[cfg(target_os = "linux")]
 fn process_completions(
     ring: &mut IoUring,
@@ -1033,11 +1054,21 @@ fn process_completions(
             continue;
         }
         let index = index as usize;
+        #[cfg(feature = "verif")]
+        if crate::verif::flag("uring_cqe_hidden") {
+            continue;
+        }
         if !buffers.mark_complete(index) {
             continue;
         }
 
         *completed_count += 1;
+        #[cfg(feature = "verif")]
+        let cqe = VerifCqe(crate::verif::uring_completion(
+            buffers.get(index).as_ptr() as u64,
+            buffers.get(index).len(),
+            cqe.result(),
+        ));
         if first_error.is_none() {
             if let Err(error) = validate_write_completion(cqe.result(), buffers.get(index).len()) {
                 *first_error = Some(FeoxError::IoError(error));
